@@ -121,6 +121,8 @@ pub fn internal_mode(mode: &str, args: &[String]) -> i32 {
         // crash engine (C13): re-executes a victim operation and is aborted at an armed probe
         #[cfg(not(feature = "codec-only"))]
         "crash-child" => prop_c13::crash_child_main(args),
+        #[cfg(not(feature = "codec-only"))]
+        "crash-child-sys" => prop_c13::crash_child_sys_main(args),
         // sensitivity self-test of the C14 oracles (mutant codecs, projection edits)
         "codec-selftest" => {
             framework::install_quiet_panic_hook();
